@@ -63,7 +63,10 @@ def dec_vals(typ, tlen, hx):
         return []
     if hx.startswith("!"):
         return [[-1]]
-    b = bytes.fromhex(hx)
+    try:
+        b = bytes.fromhex(hx)
+    except ValueError:
+        return [[-2]]          # not a value dump at all (harness printed something else): never equal
     if typ == 6:
         out, p = [], 0
         while p + 4 <= len(b):
